@@ -38,7 +38,7 @@ func init() {
 		Rule: "case = sketch reached by a seeded history incl. cleared-then-refilled stores, negatives with every store kind and arbitrary non-negative float64 weights: ToProto -> proto.Marshal -> Unmarshal -> FromProtoWithStoreProvider(any kind) must give an Equals mapping and bitwise equal zero weight and bin weights (count within 1e-12); EncodeProto bytes must unmarshal to a message proto.Equal to ToProto(); " +
 			"sources are also reweighted and may hold bins whose weight underflowed to zero (which carry nothing to rebuild); hand-built messages mixing binCounts and contiguousBinCounts (dyadic weights where they overlap, indexes also at both ends of the int32 range) must add up, and the rebuilt sketch written again by both writers must describe the same bins; half of the sources are converted again later - after the earlier message was scribbled on and a stream whose mapping is Equals but not bit-identical was decoded into them - and both writers must then describe the mapping the sketch holds. Non-trivial = both stores non-empty and >=1 non-integer weight; distinct = hash of the history.",
 		Cases:     core.Scale(60000, 1500000),
-		Mandatory: []string{"oracle.proto_roundtrips", "oracle.later_message_checks", "later_message.mapping_replaced_by_equal_one", "oracle.stream_equals_message", "oracle.mixed_message_checks", "weights.arbitrary", "source.cleared_then_refilled", "proto.target.dense", "proto.target.sparse", "proto.target.paginated", "proto.target.collapsing_lowest", "proto.target.collapsing_highest", "proto.via_FromProto", "proto.via_paginated_method", "source.underflowed_bins", "source.reweighted", "mixed.extreme_indexes", "oracle.mixed_second_leg", "source.unread_before_writing", "source.wide_span", "oracle.message_is_a_snapshot"},
+		Mandatory: []string{"oracle.proto_roundtrips", "oracle.later_message_checks", "oracle.message_read_twice", "later_message.mapping_replaced_by_equal_one", "oracle.stream_equals_message", "oracle.mixed_message_checks", "weights.arbitrary", "source.cleared_then_refilled", "proto.target.dense", "proto.target.sparse", "proto.target.paginated", "proto.target.collapsing_lowest", "proto.target.collapsing_highest", "proto.via_FromProto", "proto.via_paginated_method", "source.underflowed_bins", "source.reweighted", "mixed.extreme_indexes", "oracle.mixed_second_leg", "source.unread_before_writing", "source.wide_span", "oracle.message_is_a_snapshot"},
 		Run:       runC09,
 	})
 }
@@ -614,6 +614,43 @@ func runC09(c *core.Ctx) {
 			}
 			if c1, c2 := s.P.GetCount(), d.GetCount(); math.Abs(c1-c2) > 1e-12*math.Abs(c1) {
 				c.Failf("proto.count", "count %v rebuilt as %v", c1, c2)
+			}
+		}
+		// the message outlives the sketch rebuilt from it: that sketch goes on (adds into bins it holds, a
+		// reweighting, sometimes Clear and reuse), and the same message is then read a second time
+		if wideEnough && r.P(0.5) && !c.Failed() {
+			c.Guard("rebuilt sketch goes on", func() {
+				if r.P(0.2) {
+					d.Clear()
+				}
+				for i := 0; i < 3; i++ {
+					d.AddWithCount(vs.vals[r.Intn(len(vs.vals))], float64(r.Range(1, 9)))
+				}
+				if r.Bool() {
+					d.Reweight(3)
+				}
+			})
+			var d2 *ddsketch.DDSketch
+			var derr2 error
+			if c.Guard("FromProto (same message again)", func() {
+				if r.Bool() {
+					d2, derr2 = ddsketch.FromProto(&back)
+				} else {
+					d2, derr2 = ddsketch.FromProtoWithStoreProvider(&back, store.SparseStoreConstructor)
+				}
+			}) {
+				return
+			}
+			c.Count("oracle.message_read_twice", 1)
+			if derr2 != nil || d2 == nil {
+				c.Failf("proto.fromproto", "second FromProto of the same message: %v", derr2)
+				return
+			}
+			gp2, _, _ := mon.ForEachBins(d2.GetPositiveValueStore())
+			gn2, _, _ := mon.ForEachBins(d2.GetNegativeValueStore())
+			if dd := diffBins(srcPos, gp2) + diffBins(srcNeg, gn2); dd != "" {
+				c.Failf("proto.message_changed_by_its_consumer", "the message, read again after the sketch first rebuilt from it (into %s) went on, no longer describes the source: %s", target, dd)
+				return
 			}
 		}
 	}
